@@ -491,31 +491,39 @@ func ruleEndErrorIsOutcome(c *Ctx, rule string) {
 	p := c.p
 	// invoke: the error given to StatsEndRPC is the variable every return yields
 	inv := p.MustFn("goat.ClientConn.invoke")
-	chk := func(f *ssa.Function, name string, match func(cell string) bool) {
+	// the variable End reports is found through the deferred block's capture, not by its name
+	chk := func(f *ssa.Function, name string, match func(cell *ssa.Alloc) bool) {
 		for _, a := range f.AnonFuncs {
 			for _, ci := range p.callsTo(a, "int.StatsEndRPC", false) {
 				arg := ci.Common().Args[3]
-				loc := ""
+				var cell *ssa.Alloc
 				if ld, ok := arg.(*ssa.UnOp); ok {
-					loc = p.locPath(ld.X)
+					if fv, ok := ld.X.(*ssa.FreeVar); ok {
+						for _, bnd := range p.freeVarBindings(fv) {
+							if al, ok := bnd.(*ssa.Alloc); ok && al.Parent() == f {
+								cell = al
+							}
+						}
+					}
 				}
-				c.check(rule, name+":end-error-variable", match(loc), "End reports the variable "+loc+" holding the RPC's outcome", p.ipos(ci.(ssa.Instruction)))
+				loc := "<not a captured variable of " + name + ">"
+				if cell != nil {
+					loc = cell.Comment
+				}
+				c.check(rule, name+":end-error-variable", cell != nil && match(cell), "End reports the variable "+loc+" holding the RPC's outcome", p.ipos(ci.(ssa.Instruction)))
 			}
 		}
 	}
-	chk(inv, "invoke", func(cell string) bool {
-		if cell != "cell:err" {
-			return false
-		}
+	chk(inv, "invoke", func(cell *ssa.Alloc) bool {
 		for _, r := range returnsOf(inv) {
 			v := retVals(r)[0]
-			if ld, ok := v.(*ssa.UnOp); ok && p.locPath(ld.X) == "cell:err" {
+			if ld, ok := v.(*ssa.UnOp); ok && ld.X == ssa.Value(cell) {
 				continue
 			}
 			// `return err` right after an assignment keeps the same value
 			okSame := false
-			for _, s := range p.cellStoresNamed(inv, "err") {
-				if p.sameValue(s.Val, v) && instrDominates(s, r) {
+			for _, s := range p.cellStores(cell) {
+				if s.Parent() == inv && p.sameValue(s.Val, v) && instrDominates(s, r) {
 					okSame = true
 				}
 			}
@@ -526,12 +534,9 @@ func ruleEndErrorIsOutcome(c *Ctx, rule string) {
 		return true
 	})
 	pu := p.MustFn("goat.handler.processUnaryRpc")
-	chk(pu, "processUnaryRpc", func(cell string) bool {
-		if cell != "cell:appErr" {
-			return false
-		}
+	chk(pu, "processUnaryRpc", func(cell *ssa.Alloc) bool {
 		nh := 0
-		for _, s := range p.cellStoresNamed(pu, "appErr") {
+		for _, s := range p.cellStores(cell) {
 			o := p.Origins().Of(s.Val)
 			switch {
 			case o.ContainsMatch("dyncall(#1,field(Handler,_),...)"):
@@ -545,7 +550,18 @@ func ruleEndErrorIsOutcome(c *Ctx, rule string) {
 		return nh >= 1
 	})
 	rs := p.MustFn("goat.handler.runStream")
-	chk(rs, "runStream", func(cell string) bool { return cell == "cell:appErr" })
+	chk(rs, "runStream", func(cell *ssa.Alloc) bool {
+		// the variable that receives the stream handler's (or the interceptor's) result
+		nd := 0
+		for _, s := range p.cellStores(cell) {
+			for _, t := range p.Origins().Of(s.Val) {
+				if t.Op == "dyncall" {
+					nd++
+				}
+			}
+		}
+		return nd >= 1
+	})
 	// io.EOF is not an error outcome
 	se := p.MustFn("int.StatsEndRPC")
 	okEOF := false
